@@ -529,6 +529,9 @@ class SymBool:
 def _arith(name):
     def f(self, o):
         return getattr(self._as_int(), name)(o)
+    f.__name__ = name
+    f.__qualname__ = "SymBool." + name
+    f.__code__ = f.__code__.replace(co_name=name)
     return f
 
 
@@ -580,6 +583,8 @@ class SymInt:
     # -- arithmetic
     def _bin(self, o, op, rev=False):
         if _is_floaty(o):
+            if op in ("and", "or", "xor", "lshift", "rshift"):
+                raise TypeError(f"unsupported operand type(s) for bit operation: 'int' and 'float'")
             me = SymFloat(_to_fp(self))
             return getattr(me, ("__r" if rev else "__") + op + "__")(o)
         b = _to_bv(o)
@@ -624,7 +629,7 @@ class SymInt:
         if op == "pow":
             bb = _simp(b)
             if not z3.is_bv_value(bb):
-                k = eng().concretize(bb, limit=8)
+                raise Unsupported("symbolic exponent")
             else:
                 k = bb.as_long()
                 k = k - (1 << W) if k >> (W - 1) else k
@@ -896,7 +901,8 @@ def _flatten_classes(cls):
         for c in cls:
             out.extend(_flatten_classes(c))
         return out
-    return [{p_int: _real_int, p_float: _real_float, p_bool: _real_bool, p_str: _real_str}.get(cls, cls)]
+    return [{p_int: _real_int, p_float: _real_float, p_bool: _real_bool, p_str: _real_str,
+             PInt: _real_int, PFloat: _real_float, PStr: _real_str}.get(cls, cls)]
 
 
 def p_isinstance(obj, cls):
@@ -950,10 +956,33 @@ class _TypeProxy:
     """Callable stand-in for a builtin type that still works as an isinstance target."""
 
 
+class PStr(_real_str):
+    """`str` for executed namespaces: callable like p_str, subclassable like str (class X(str) keeps working)."""
+
+    def __new__(cls, x="", *a):
+        if cls is PStr:
+            return p_str(x, *a)
+        return _real_str.__new__(cls, x, *a)
+
+
+class PInt(_real_int):
+    def __new__(cls, x=0, *a):
+        if cls is PInt:
+            return p_int(x, *a)
+        return _real_int.__new__(cls, x, *a)
+
+
+class PFloat(_real_float):
+    def __new__(cls, x=0.0):
+        if cls is PFloat:
+            return p_float(x)
+        return _real_float.__new__(cls, x)
+
+
 def make_builtins(extra=None, importer=None):
     d = dict(_bi.__dict__)
     d.update({
-        "int": p_int, "float": p_float, "bool": p_bool, "str": p_str,
+        "int": PInt, "float": PFloat, "bool": p_bool, "str": PStr,
         "isinstance": p_isinstance, "round": p_round, "len": p_len, "range": p_range,
         "print": p_print,
     })
